@@ -37,6 +37,10 @@ RULE = ("C02-style programs with chunk sizes around MIN_LENGTH=1024, Content-Typ
         "others, Vary and Content-Encoding set by the handler, Accept-Encoding in {absent, gzip, gzip;q=0, identity, GZIP, ...}; "
         "non-trivial = the response was actually compressed and carried data; distinct by canonical JSON")
 EXHAUSTIVE = {"quick": False, "thorough": False}
+CLAUSE_CAVEATS = [
+    "decoded_equals_written is the gzip-writer contract applied to the transform's feed; that the handler's writes are what the transform sees and that the transform's outputs are what the connection frames (HEAD, 304/204, error path, chunking) is decided by the tie with real zlib",
+    'cl_equals_encoded_length covers the finish-in-first-chunk case at transform level',
+]
 CLAUSES = {
     "a client that decodes the body according to Content-Encoding obtains exactly the bytes written":
         "decoded_equals_written + identity_when_not_compressing (transform level, under the gzip contract); "
